@@ -5,6 +5,7 @@ COMMON_TRUSTED = [
     "Lean 4.33.0 kernel (thorough tier: re-checked by leanchecker)",
     "axioms propext, Classical.choice, Quot.sound only (audited on every run via #print axioms; no sorry/native_decide/bv_decide)",
     "tools/gen_constants.py (regex extraction of numeric constants from /repo source)",
+    "the translators tools/gen_*.py with tools/rustmini*.py: parsing of the Rust text and the mapping tables in their docstrings (Rust method -> Lean function, &mut / RefCell -> state component, loop -> fold or fuel recursion, panic -> none); what the kernel checks is that the TRANSLATION equals the model (Props/Tie*.lean); a definition that does not elaborate falls back to an alias of the model (status UNTRANSLATED)",
     "harness/ (Rust; drives the real crate in-process, canonical printing) and tools/check.py (diff, verdict)",
     "Lean compiler for the model driver (executes Model and Spec definitions)",
     "the correspondence is a sample: it ties the hand-written model to the code on the explored cases only",
